@@ -474,11 +474,13 @@ def check_C44(ctx):
         "golden_values": c.get("golden_values", 0), "golden_types": c.get("golden_types", 0), "golden_direct": c.get("golden_direct", 0), "golden_programs": c.get("golden_programs", 0),
         "roundtrip_only (no golden entry: other seed / thorough universe)": c.get("values_without_golden", 0) + c.get("types_without_golden", 0),
         "value_roundtrips": c.get("value_roundtrips", 0), "static_types": c.get("types", 0), "storage_only_values": c.get("direct", 0), "fixed_programs": c.get("programs", 0),
+        "golden_values_whose_imported_value_changed (bytes not compared)": c.get("golden_value_changed_upstream", 0),
         "skipped_not_importable (user error)": c.get("values_not_importable", 0),
         "skipped_argument_import_defects (C29)": c.get("values_not_passable_as_argument", 0),
         "skipped_types_without_conversion (function, attachment)": c.get("types_not_convertible", 0),
     }, assumptions=["golden corpus corpus/stored/golden.ndjson.gz was written by the pinned tree with VERIF_STORED_GEN=1 bin/vcheck C44",
                     "values reach storage as transaction arguments wrapped in struct C.H; string text is compared in NFC (Cadence strings are normalised)",
+                    "the read-back value must equal exactly what an echo script receives for the same argument, and the model's value modulo optional boxing done by argument import; golden bytes are compared only when golden and current registers hold the same value",
                     "nominal static types are compared by kind and type ID (storage keeps types by name); register bytes are compared exactly",
                     "host = repo's TestLedger; registers of a fresh account after one transaction"])
 
